@@ -1,4 +1,7 @@
 import FFVerif.Props.C16
+import FFVerif.Pins.pinTensorInsert
+import FFVerif.Pins.pinTensorMerge
+import FFVerif.Pins.pinTensorTranspose
 #print axioms FFVerif.C16.normPos_ok_iff
 #print axioms FFVerif.C16.normPos_rejected
 #print axioms FFVerif.C16.positions_rejected_iff_insert
@@ -30,3 +33,6 @@ import FFVerif.Props.C16
 #print axioms FFVerif.C16.insertSubscripts_consistent
 #print axioms FFVerif.C16.splitInsertIndex_formula
 #print axioms FFVerif.C16.splitInsertIndex_bookkeeping
+#print axioms FFVerif.Pins.pinTensorInsert
+#print axioms FFVerif.Pins.pinTensorMerge
+#print axioms FFVerif.Pins.pinTensorTranspose
